@@ -436,6 +436,24 @@ impl Prop for C03 {
         Ok(())
     }
 
+    fn sanitize(case: &mut Case) {
+        // byte-decoded (fuzzer) cases: bounded numbers of runs; the magnitudes stay free
+        match &mut case.shape {
+            Shape::Generic { runs, many, cycle, .. } => {
+                runs.truncate(24);
+                *many %= 150;
+                cycle.truncate(8);
+            }
+            Shape::BigThenMany { many, cycle, .. } => {
+                *many %= 150;
+                cycle.truncate(8);
+            }
+            Shape::Bools(b) => b.truncate(2000),
+        }
+        case.split.truncate(8);
+        case.extra.truncate(24);
+    }
+
     fn assumptions() -> Vec<String> {
         vec![
             "get is asked only below len and rank_zero only up to len".into(),
